@@ -52,6 +52,11 @@ def make_scenarios(ctx, count):
                 ops.append(("MAC-A", a))
             n = min(rng.choice([1, 2, 5, 12, 40]), G.cap_emit(cfa["mtu"]))
             srcs = G.distinct_macs(rng, n, avoid=[a, b])
+            for j in range(1, n):
+                if rng.random() < 0.3:        # spoofed sources that are nearly equal: distinct stations all the same
+                    cand = G.related_mac(rng, srcs[j - 1], fold=rng.random() < 0.5)
+                    if cand not in srcs and cand not in (a, b):
+                        srcs[j] = cand
             descs = []
             for j in range(n):
                 dst = b if rng.random() < 0.85 else rng.choice(neta.strangers)
